@@ -530,7 +530,7 @@ pub fn run_op(sh: &Arc<Shared>, o: &OpDesc) -> Value {
             let r = match o.via.as_str() {
                 "trait" => Dispatcher::dispatch(store, act),
                 "store" => <TStore as Store<St, Act>>::dispatch(store, act),
-                _ => store.dispatch(act),
+                _ => TStore::dispatch(store, act), // the inherent method (`store.dispatch` on an Arc resolves to the Dispatcher trait)
             };
             json!(if r.is_ok() { "Ok" } else { "Err" })
         }
